@@ -189,7 +189,12 @@ def criterion(kind, k, Es, gs, slack_g, slack_E):
     raise ValueError(kind)
 
 
-def verify(log, fin, status, A, M, b, x0, lam, kind, limit, nreset, napply0, tag, msgs=()):
+def verify(*a, **k):
+    with np.errstate(all="ignore"):      # diverging runs overflow in norms; they are reported, not warned about
+        return _verify(*a, **k)
+
+
+def _verify(log, fin, status, A, M, b, x0, lam, kind, limit, nreset, napply0, tag, msgs=()):
     """All checks on one CG run.  log = recorder entries; fin = dict(x,g,v,id) of the returned
     energy.  Returns (violation or None, label, stats)."""
     from vf.ref import c14_sys as S
